@@ -89,6 +89,28 @@ static Case cases[] = {
     {"json_zero_with_exponent", [] { return js_is("[0e1,0E-2,0.0e5,-0e1]", "[0,0,0,-0]"); }},
     {"json_partial_object_in_array", [] { return js_is("[{\"a\":1 x,2]", nullptr); }},
     {"json_partial_array_in_array", [] { return js_is("[[1 x,2]", nullptr); }},
+    {"json_short_unicode_escape_swallows_text", [] {
+         int bad = 0;
+         const char *docs[] = {"[\"\\ua\"],\"]", "[\"\\uD83D\"]1234\"]", "[\"\\u12\"]]]\"]"};
+         for (const char *d : docs) {
+             if (!js_undef(d, (SizeT)strlen(d))) { printf("expected Undefined for %s\n", d); ++bad; }
+         }
+         return bad;
+     }},
+    {"value_pointer_to_pointer_predicates", [] {
+         Value<char> u, p1, v;
+         p1.SetPointerToValue(&u);
+         v["a"] = 1;
+         v["b"].SetPointerToValue(&p1);
+         StringStream<char> ss;
+         v.Stringify(ss);
+         Value<char> s, q1, q2;
+         s = "x";
+         q1.SetPointerToValue(&s);
+         q2.SetPointerToValue(&q1);
+         if (!(ss == "{\"a\":1}") || !q2.IsString() || q2.IsUndefined()) { printf("expected {\"a\":1} and a string, got %.*s / %d\n", (int)ss.Length(), ss.First(), (int)q2.IsString()); return 1; }
+         return 0;
+     }},
     {"json_unterminated_top_level_string", [] {
          // UnEscape returns the whole length when the text ends inside the string; "abc\" ends in an ESCAPED quote
          int bad = 0;
@@ -511,6 +533,24 @@ static Case cases[] = {
          return bad;
      }},
     // ---- C10: what is dropped below the rounding digit takes part in the rounding decision
+    {"digit_fixed_tie_behind_leading_zeros", [] {
+         // an exact tie is rounded to even (as %.*f does); leading zeros of the fraction are not "above the half"
+         struct { double v; unsigned p; const char *want; } cs[] = {
+             {0.0625, 3U, "0.062"}, {0.03125, 4U, "0.0312"}, {-0.015625, 5U, "-0.01562"}, {0.09375, 4U, "0.0938"},
+             {0.0078125, 6U, "0.007812"}, {0.00390625, 7U, "0.0039062"},
+         };
+         int bad = 0;
+         for (auto &c : cs) {
+             StringStream<char> ss;
+             Digit::NumberToString(ss, c.v, Digit::RealFormatInfo{c.p, Digit::RealFormatType::Fixed});
+             if (!ss.IsEqual(c.want, (SizeT)strlen(c.want))) {
+                 ss += '\0';
+                 printf("expected [%s], got [%s] for %.17g at %u decimals\n", c.want, ss.First(), c.v, c.p);
+                 ++bad;
+             }
+         }
+         return bad;
+     }},
     {"digit_rounding_sees_dropped_part", [] {
          struct { double v; unsigned p; const char *want; } cs[] = {
              {25.007, 1U, "3e+01"}, {250.0, 1U, "2e+02"}, {350.0, 1U, "4e+02"}, {1050.0, 2U, "1e+03"},
